@@ -6,17 +6,6 @@ namespace Selene.LintsB.SideEffects
 open Selene.Lua Selene.LintsB
 
 /-! ### `side_effects.rs`, arm by arm -/
-/-- `impl HasSideEffects for ast::Suffix`: `Suffix::Index(_) => false` — the bracket expression is not examined -/
-def suffixSE : Suffix → Bool
-  | .args _ _ | .meth _ _ _ => true
-  | .dot _ _ | .idx _ _ => false
-  | .unsupported _ => true
-
-/-- `self.suffixes().any(HasSideEffects::has_side_effects)` -/
-def suffixesSE : SuffixList → Bool
-  | .nil => false
-  | .cons s rest => suffixSE s || suffixesSE rest
-
 mutual
 def exprSE : Expr → Bool
   | .bin _ l _ r => exprSE l || exprSE r
@@ -41,6 +30,16 @@ def varSE : Var → Bool
 def prefixSE : Prefix → Bool
   | .expr e => exprSE e
   | .name _ => false
+/-- `self.suffixes().any(HasSideEffects::has_side_effects)` -/
+def suffixesSE : SuffixList → Bool
+  | .nil => false
+  | .cons s rest => suffixSE s || suffixesSE rest
+/-- `impl HasSideEffects for ast::Suffix`: a call has side effects, a bracket index those of its expression -/
+def suffixSE : Suffix → Bool
+  | .args _ _ | .meth _ _ _ => true
+  | .idx _ e => exprSE e
+  | .dot _ _ => false
+  | .unsupported _ => true
 end
 
 end Selene.LintsB.SideEffects
